@@ -23,6 +23,7 @@ CONSTANTS
   NameOrder <- NameOrderA
   BuildCfgs <- BuildCfgsA
   IntegrCfgs <- IntegrCfgsA
+  OdeCfgs <- OdeCfgsA
   UnitCfgs <- UnitsA
   Times <- TimesA
   Tol <- TolA
